@@ -591,9 +591,15 @@ def check(pid, tier, only=None, keep=False, jobs=None, repo=DEFAULT_REPO, quiet=
                     undec.append((r["name"], "unwinding bound %s insufficient: %s" % (g.get("unwind", 12), o["name"])))
                     continue
                 failed.append(o)
-            gi["obligations"] = len(real)
+            n_known_here = len([o for o in failed if match_known(known, pid, r["name"], o)])
+            # obligations behind a known finding: the failed one itself and the ones cbmc then reports UNKNOWN
+            n_behind = 0
+            if failed and n_known_here == len(failed):
+                n_behind = len([o for o in real if o["status"] not in ("SUCCESS", "FAILURE")])
+            gi["obligations"] = len(real) - n_known_here - n_behind
             gi["failed"] = len(failed)
-            n_obl += len(real)
+            gi["known_finding_obligations"] = n_known_here + n_behind   # reported separately, not counted as obligations
+            n_obl += len(real) - n_known_here - n_behind
             n_ok += len([o for o in real if o["status"] == "SUCCESS"])
             if r["bounded"]:
                 bounded.append({"group": r["name"], "bound": r["bounded"], "obligations": len(real)})
